@@ -20,10 +20,12 @@ pub struct ScriptRng {
     pub log: Vec<usize>,
     /// request made with no script entry left
     pub exhausted: bool,
+    /// error code reported by failing answers (OS-style codes below 2^31, e.g. 4 = EINTR, 11 = EAGAIN, or a custom code)
+    pub err_code: u32,
 }
 
 impl ScriptRng {
-    pub fn new(script: Vec<Answer>) -> Self { ScriptRng { script, pos: 0, log: Vec::new(), exhausted: false } }
+    pub fn new(script: Vec<Answer>) -> Self { ScriptRng { script, pos: 0, log: Vec::new(), exhausted: false, err_code: Error::CUSTOM_START + 2 } }
     pub fn ok(bytes: &[u8]) -> Self { Self::new(vec![Answer::Ok(bytes.to_vec())]) }
     pub fn oks(list: &[&[u8]]) -> Self { Self::new(list.iter().map(|b| Answer::Ok(b.to_vec())).collect()) }
 }
@@ -48,12 +50,12 @@ impl RngCore for ScriptRng {
                 }
                 Ok(())
             }
-            Answer::ErrBefore => Err(Error::from(core::num::NonZeroU32::new(Error::CUSTOM_START + 2).unwrap())),
+            Answer::ErrBefore => Err(Error::from(core::num::NonZeroU32::new(self.err_code).unwrap())),
             Answer::ErrAfter(n, bytes) => {
                 for (i, d) in dest.iter_mut().enumerate().take(n) {
                     *d = bytes[i % bytes.len()];
                 }
-                Err(Error::from(core::num::NonZeroU32::new(Error::CUSTOM_START + 3).unwrap()))
+                Err(Error::from(core::num::NonZeroU32::new(self.err_code).unwrap()))
             }
         }
     }
